@@ -38,9 +38,7 @@ def known_excl(init, bound, cmp_, side, pos):
 WIDE_MODES = ['CUDA', 'HIP', 'Metal']
 
 
-def wide_excl(init, bound):
-    """64-bit iterator, 32-bit operands, a negative iterator value is reachable: see known_findings.txt"""
-    return ('((long)(%s)) < 0 || ((long)(%s)) <= 0' % (init, bound), WIDE_MODES)
+WIDE = ('tr_wrapped', WIDE_MODES)    # symptom: the translation visited a value in [2^31, 2^32) (true values are below 2^15 in magnitude)
 
 
 NEG = 'launch_negative && nvis[0] == 0'   # the sequential loop is empty and the launcher computed a negative dimension
@@ -89,7 +87,7 @@ def programs(tier, seed):
                        )
             p.excl_post = {'negative-trip-count': NEG}
             if T == 'long':
-                p.excl = {'wide-iterator-negative': wide_excl(init, bound)}
+                p.excl_post['wide-iterator-negative'] = WIDE
             progs.append(p)
     # (3) multi-dimensional nests: index <-> dimension assignment
     NESTM = {'n2x2': ['Serial', 'CUDA', 'OpenCL'], 'n3x1': ['OpenMP', 'HIP', 'Metal'], 'n1x3': ['Serial', 'dpcpp', 'CUDA'], 'n2x1s': ['OpenMP', 'OpenCL', 'Metal']}
